@@ -17,17 +17,17 @@ Want(out) == [out |-> [i \in 1..Len(out) |-> [id |-> out[i][1], acked |-> out[i]
 GenInit == Init /\ hist = <<>>
 GenPut == \E id \in 0..(IdMod - 1), rtt \in Rtts :
             /\ CanPut(rb, id) /\ id \notin puts
-            /\ puts' = puts \cup {id}
-            /\ LET r == Put(rb, id) IN
-               /\ rb' = r[1] /\ li' = Feed(li, r[2], judged, rtt) /\ judged' = judged + Len(r[2]) /\ bad' = bad \cup Check(rb, r[2], TRUE)
+            /\ LET r == Put(rb, id) P == puts \cup {id} IN
+               /\ puts' = Prune(P, r[1].base)
+               /\ rb' = r[1] /\ li' = Feed(li, r[2], judged, rtt) /\ judged' = judged + Len(r[2]) /\ bad' = bad \cup Check(rb, r[2], TRUE, P)
                /\ hist' = Append(hist, [op |-> "put", id |-> id, rtt |-> rtt, n0 |-> judged, prevbase |-> rb.base, want |-> Want(r[2])])
 GenAdvance == \E nb \in 0..(IdMod - 1), rtt \in Rtts :
             /\ CanAdvance(rb, nb)
-            /\ puts' = puts
             /\ LET r == Advance(rb, nb) IN
-               /\ rb' = r[1] /\ li' = Feed(li, r[2], judged, rtt) /\ judged' = judged + Len(r[2]) /\ bad' = bad \cup Check(rb, r[2], FALSE)
+               /\ puts' = Prune(puts, r[1].base)
+               /\ rb' = r[1] /\ li' = Feed(li, r[2], judged, rtt) /\ judged' = judged + Len(r[2]) /\ bad' = bad \cup Check(rb, r[2], FALSE, puts)
                /\ hist' = Append(hist, [op |-> "advance", id |-> nb, rtt |-> rtt, n0 |-> judged, prevbase |-> rb.base, want |-> Want(r[2])])
-GenNext == (Len(hist) < Depth /\ (GenPut \/ GenAdvance)) \/ (Forget /\ UNCHANGED hist)
+GenNext == Len(hist) < Depth /\ (GenPut \/ GenAdvance)
 GenSpec == GenInit /\ [][GenNext]_<<vars, hist>>
 
 Emit == Len(hist) = Depth => PrintT(<<"SCHED", ToJson([ops |-> hist, cfg |-> [IdMod |-> IdMod, Span |-> Span, Gap |-> Gap]])>>)
